@@ -135,6 +135,20 @@ def chunked_inputs(d, kind):
         n += 1
 
 
+def mpeg_vbr_inputs(d):
+    """every 16/32-bit field of a Xing/Info/VBRI header (frame count, byte count, TOC entries, scale ...) at its extremes"""
+    for marker in (b"VBRI", b"Xing", b"Info", b"LAME"):
+        p = d.find(marker, 0, 8192)
+        if p < 0:
+            continue
+        for off in range(4, 64, 2):
+            for w in (2, 4):
+                if p + off + w > len(d):
+                    continue
+                for v in (0, 1, 2 ** (8 * w - 1) - 1, 2 ** (8 * w - 1), 2 ** (8 * w) - 1):
+                    yield "mpeg-%s-field+%d/%d=%d" % (marker.decode(), off, w, v), put(d, p + off, w, v, True)
+
+
 def aiff_rate_inputs(d, stride=1):
     """the 80-bit extended float of the AIFF COMM chunk: every exponent (sign 0 and 1) with mantissas at the
     extremes, so that every overflow path of the float decoding is reached"""
@@ -336,6 +350,8 @@ def structured(name, d):
     if fam in ("aiff", "wave", "dff"): gens.append(chunked_inputs(d, fam))
     if fam == "aiff" and name == "8k-1ch-1s-silence.aif": gens.append(aiff_rate_inputs(d, 1))     # one file is enough
     if fam == "flac": gens.append(flac_inputs(d))
+    if name.lower().endswith((".mp3", ".mp2")):
+        gens.append(mpeg_vbr_inputs(d))
     if fam == "asf":
         gens.append(asf_inputs(d))
         gens.append(asf_long_names(d))
